@@ -94,6 +94,19 @@ func serve(req *proto.RunReq) (resp *proto.RunResp) {
 		return
 	}
 
+	if req.DriverFailsOnce {
+		// go/packages consults GOPACKAGESDRIVER first: a driver that fails on its first call and declines
+		// ("NotHandled") afterwards emulates go list failing once, e.g. while go.mod is being rewritten
+		dir, err := os.MkdirTemp("", "verif-driver-")
+		if err == nil {
+			defer os.RemoveAll(dir)
+			script := filepath.Join(dir, "driver.sh")
+			mark := filepath.Join(dir, "called")
+			_ = os.WriteFile(script, []byte("#!/bin/sh\nif [ ! -e '"+mark+"' ]; then : > '"+mark+"'; echo 'transient driver failure' >&2; exit 1; fi\ncat > /dev/null\necho '{\"NotHandled\":true}'\n"), 0o755)
+			os.Setenv("GOPACKAGESDRIVER", script)
+			defer os.Unsetenv("GOPACKAGESDRIVER")
+		}
+	}
 	if req.Universe {
 		rec.start()
 		resp.Universe, resp.LoadErr = universeReport(req)
@@ -129,7 +142,14 @@ func serve(req *proto.RunReq) (resp *proto.RunResp) {
 	ctx, cancel := context.WithCancel(context.Background())
 	rec.cancel = cancel
 	defer cancel()
-	if err := c.Execute(ctx, gens...); err != nil {
+	err = c.Execute(ctx, gens...)
+	if err != nil && req.RetrySameExecutor {
+		// the caller retries on the same executor; the report describes the second call
+		resp.FirstExecErr = err.Error()
+		resp.FirstExecuted = rec.restartExec()
+		err = c.Execute(ctx, gens...)
+	}
+	if err != nil {
 		resp.ExecErr = err.Error()
 		if resp.ExecErr == "" {
 			resp.ExecErr = "error"
